@@ -14,6 +14,7 @@ type levelSpec struct {
 	Coef     float64
 	Min, Max float64
 	Explicit []map[string]float64 // for Fn == thresholds
+	OmitMin  bool                 // leave "minValue" out of the request when it is 0 (the documented default)
 }
 
 func (l levelSpec) params() M {
@@ -30,6 +31,9 @@ func (l levelSpec) params() M {
 			ts = L{}
 		}
 		return M{"thresholds": ts}
+	}
+	if l.OmitMin && l.Min == 0 {
+		return M{"coefficient": l.Coef, "maxValue": l.Max}
 	}
 	return M{"coefficient": l.Coef, "minValue": l.Min, "maxValue": l.Max}
 }
